@@ -67,9 +67,35 @@ def run(ctx):
             json.dump(plan, open(pp, 'w'))
             jobs.append({'job': {'scn': s, 'scheme': 'structural', 'plan': str(pp), 'mode': 'cli', 'damage': 'no_tmp_dir'}})
             meta.append((s, {'k': k, 'pt': pt, 'mode': mode, 'no_tmp_dir': True}))
+        # sixty workers at once (messages that list the workers get long): the failed run still writes its log
+        s = None
+        while s is None:
+            s = base_scenario(rng, 60, 60)
+        for k, pt, mode in ((2, 'after', 'exit3'), (59, 'before', 'kill')):
+            pp = ctx.scratch / f'fault_{len(jobs)}.json'
+            json.dump(pooltrace.fault_plan(s, k, pt, mode), open(pp, 'w'))
+            jobs.append({'job': {'scn': s, 'scheme': 'structural', 'plan': str(pp), 'mode': 'cli'}})
+            meta.append((s, {'k': k, 'pt': pt, 'mode': mode, 'many': True}))
         outs = sub.run_jobs(ctx, jobs)
         ptraces = []
         for (s, f), o in zip(meta, outs):
+            if f.get('many'):
+                ctx.count({'stage': 'mapping', 'fault': f, 'P': 60}, nontrivial=True)
+                what = []
+                if o['ok']:
+                    what.append('the call returned normally')
+                if o.get('has_results'):
+                    what.append('the JSON output holds result records')
+                if o['files'].get('res.csv'):
+                    what.append('a CSV file was written')
+                if not o['files'].get('log.txt') or not o.get('log_file'):
+                    what.append('no log file was written')
+                if not o['files'].get('res.json'):
+                    what.append('no JSON (log/config) output was written')
+                if what:
+                    ctx.report('mapping:fault:many-workers', f'mapping stage with 60 workers, worker {f["k"]} fails {f["pt"]} its work '
+                               f'by {f["mode"]}: ' + '; '.join(what) + f' ({o.get("error")})', {'scn': s, 'fault': f})
+                continue
             if f.get('no_tmp_dir'):
                 ctx.count({'stage': 'mapping', 'fault': f}, nontrivial=True)
                 extra = [x for x in o.get('out_listing', []) if x not in ('res.json', 'log.txt', 'res.h5')]
@@ -105,7 +131,7 @@ def run(ctx):
                            + '; '.join(what), {'scn': s, 'fault': f})
             ptraces.append(pooltrace.pool_trace(s, o, fault=f))
         rej = 0
-        for (s, f), v in zip([m for m in meta if not m[1].get('no_tmp_dir')],
+        for (s, f), v in zip([m for m in meta if not m[1].get('no_tmp_dir') and not m[1].get('many')],
                              pooltrace.validate_pool(ctx, ptraces, 'WorkerPool_Trace_faults')):
             if not v['accepted']:
                 rej += 1
